@@ -2,6 +2,7 @@
 mod backends;
 mod c15;
 mod c16;
+mod c33;
 
 use proptest::prelude::*;
 use serde::{Deserialize, Serialize};
@@ -30,6 +31,7 @@ fn main() {
     match args.id.as_str() {
         "C15" => c15::run(&mut check),
         "C16" => c16::run(&mut check),
+        "C33" => c33::run(&mut check),
         other => vcommon::harness_error(format!("genrun does not serve {other}")),
     }
     check.finish()
